@@ -83,6 +83,14 @@ func (p *CompressedEdwardsY) MarshalBinary() ([]byte, error) {
 // This function accepts non-canonical encodings, and rejects invalid
 // points.
 func (p *CompressedEdwardsY) UnmarshalBinary(data []byte) error {
+	// data may alias the receiver (`p.UnmarshalBinary(p[:])`), decode what
+	// was passed in, not the reset value.
+	var tmp [CompressedPointSize]byte
+	if len(data) == CompressedPointSize {
+		copy(tmp[:], data)
+		data = tmp[:]
+	}
+
 	p.Identity() // Foot + gun avoidance.
 
 	var ep EdwardsPoint
